@@ -648,7 +648,14 @@ func (d *ColumnDetector) createColumnsFromGaps(fragments []text.TextFragment, ga
 	return columns
 }
 
-// validateColumns validates and cleans up detected columns
+// validateColumns validates and cleans up detected columns.
+//
+// Empty columns are removed. A column narrower than MinColumnWidth is not a
+// column of its own (a stray word beside the text, a line-number or
+// margin-note strip, a gap found inside one column), but its fragments are
+// still text of the page: they are merged into the horizontally nearest
+// neighbouring column instead of being discarded. When only one column is
+// left it is kept whatever its width.
 func (d *ColumnDetector) validateColumns(columns []Column) []Column {
 	var valid []Column
 
@@ -657,13 +664,38 @@ func (d *ColumnDetector) validateColumns(columns []Column) []Column {
 		if len(col.Fragments) == 0 {
 			continue
 		}
+		valid = append(valid, col)
+	}
 
-		// Skip columns that are too narrow
-		if col.BBox.Width < d.config.MinColumnWidth {
-			continue
+	// Merge columns that are too narrow into their nearest neighbour
+	for len(valid) > 1 {
+		narrow := -1
+		for i, col := range valid {
+			if col.BBox.Width < d.config.MinColumnWidth {
+				narrow = i
+				break
+			}
+		}
+		if narrow < 0 {
+			break
 		}
 
-		valid = append(valid, col)
+		// Columns are ordered left to right: the nearest one is the left or
+		// the right neighbour, whichever leaves the smaller horizontal gap.
+		target := narrow - 1
+		if narrow == 0 {
+			target = 1
+		} else if narrow+1 < len(valid) {
+			gapLeft := valid[narrow].BBox.X - (valid[narrow-1].BBox.X + valid[narrow-1].BBox.Width)
+			gapRight := valid[narrow+1].BBox.X - (valid[narrow].BBox.X + valid[narrow].BBox.Width)
+			if gapRight < gapLeft {
+				target = narrow + 1
+			}
+		}
+
+		valid[target].Fragments = append(valid[target].Fragments, valid[narrow].Fragments...)
+		valid[target].BBox = fragmentsBBox(valid[target].Fragments)
+		valid = append(valid[:narrow], valid[narrow+1:]...)
 	}
 
 	// Re-index columns
